@@ -409,12 +409,18 @@ def name_return(sig, counts):
 LOOP_RX = re.compile(r'\b(while|loop|for)\b')
 
 
-def splice_loops(body, loops, counts):
-    """Insert invariant blocks after the n-th loop header (before its `{`)."""
-    if not loops:
+def splice_loops(body, loops, counts, body_hints=None, end_hints=None, before_hints=None):
+    """Insert invariant blocks after the n-th loop header (before its `{`); `body_hints` {n: ghost text}
+    (from `%hint @loop n`) go at the start of the n-th loop's body, an anchor that does not depend on
+    the text of any statement."""
+    body_hints = body_hints or {}
+    end_hints = end_hints or {}
+    before_hints = before_hints or {}
+    if not loops and not body_hints and not end_hints and not before_hints:
         return body
     mask = code_mask(body)
     pos = []
+    starts = []
     i = 0
     while True:
         m = LOOP_RX.search(mask, i)
@@ -434,14 +440,33 @@ def splice_loops(body, loops, counts):
                 break
             k += 1
         pos.append(k)
+        starts.append(m.start(1))
         i = k + 1
     out = body
-    for n in sorted(loops, reverse=True):
+    for n in sorted(set(loops) | set(body_hints) | set(end_hints) | set(before_hints), reverse=True):
         if n < 1 or n > len(pos):
             raise Lost('loop #%d not found (function has %d loops)' % (n, len(pos)))
         k = pos[n - 1]
-        out = out[:k] + '\n' + loops[n] + '\n' + out[k:]
-        counts.hit('D6_loop_invariant_spliced')
+        if n in end_hints:
+            # `%hint @loop n end`: before the closing brace of the n-th loop's body (loops are not nested here)
+            close = match_close(body, k)
+            if any(k < q < close for q in pos):
+                raise Lost('loop #%d has a nested loop: @loop end anchors are not supported there' % n)
+            out = out[:close] + '\n' + end_hints[n] + '\n' + out[close:]
+            counts.hit('D6_ghost_hint_spliced')
+        if n in body_hints:
+            out = out[:k + 1] + '\n' + body_hints[n] + '\n' + out[k + 1:]
+            counts.hit('D6_ghost_hint_spliced')
+        if n in loops:
+            out = out[:k] + '\n' + loops[n] + '\n' + out[k:]
+            counts.hit('D6_loop_invariant_spliced')
+        if n in before_hints:
+            # `%hint @loop n before`: on its own line in front of the loop statement
+            ls = out.rfind('\n', 0, starts[n - 1]) + 1
+            if out[ls:starts[n - 1]].strip():
+                raise Lost('loop #%d does not start a statement: @loop before anchor not supported' % n)
+            out = out[:ls] + before_hints[n] + '\n' + out[ls:]
+            counts.hit('D6_ghost_hint_spliced')
     return out
 
 
@@ -498,11 +523,56 @@ def splice_closures(body, closures, counts):
 
 def splice_hints(body, hints, counts):
     for anchor, ghost in hints:
+        # structural anchors: independent of the text of any statement
+        if anchor == '@head':
+            body = body[:1] + '\n' + ghost + '\n' + body[1:]
+            counts.hit('D6_ghost_hint_spliced')
+            continue
+        if anchor == '@tail':
+            # before the function's final (single-line) expression
+            close = len(body.rstrip()) - 1
+            if body[close] != '}':
+                raise Lost('@tail: function body does not end with }')
+            e = close
+            while e > 0 and body[e - 1] in ' \t\n':
+                e -= 1
+            ls = body.rfind('\n', 0, e) + 1
+            line = code_mask(body)[ls:e]
+            if not line.strip() or line.count('(') != line.count(')') or line.count('{') != line.count('}') or line.rstrip().endswith(';'):
+                raise Lost('@tail: the function does not end with a single-line tail expression')
+            body = body[:ls] + ghost + '\n' + body[ls:]
+            counts.hit('D6_ghost_hint_spliced')
+            continue
+        if anchor.startswith('@arm '):
+            # end of the block of the match arm `<pattern> => { ... }`
+            pat = anchor[len('@arm '):].strip()
+            mask = code_mask(body)
+            m = re.search(r'(?<![\w:])' + re.escape(pat) + r'\s*=>\s*\{', mask)
+            if not m:
+                raise Lost('hint anchor: match arm %r with a block body not found' % pat)
+            close = match_close(body, m.end() - 1)
+            e = close
+            while e > 0 and body[e - 1] in ' \t\n':
+                e -= 1
+            if body[e - 1] not in ';}{':
+                raise Lost('hint anchor: match arm %r ends with a value expression' % pat)
+            body = body[:close] + ghost + '\n' + body[close:]
+            counts.hit('D6_ghost_hint_spliced')
+            continue
+        after = anchor.startswith('after:')
+        if after:
+            anchor = anchor[len('after:'):].strip()
         idx = body.find(anchor)
         if idx < 0:
             raise Lost('hint anchor %r not found' % anchor)
-        ls = body.rfind('\n', 0, idx) + 1
-        body = body[:ls] + ghost + '\n' + body[ls:]
+        if after:
+            # `%hint after: <statement>`: the ghost text follows the line that holds the anchor
+            le = body.find('\n', idx)
+            le = len(body) if le < 0 else le + 1
+            body = body[:le] + ghost + '\n' + body[le:]
+        else:
+            ls = body.rfind('\n', 0, idx) + 1
+            body = body[:ls] + ghost + '\n' + body[ls:]
         counts.hit('D6_ghost_hint_spliced')
     return body
 
@@ -881,7 +951,14 @@ def assemble(unit_path, repo, vf_dir):
                 A.counts.hit('Dx_unit_subst', n)
                 text_sig, n = re.subn(pat, rep, text_sig)
                 A.counts.hit('Dx_unit_subst', n)
-            body = splice_loops(body, f.loops, A.counts)
+            loop_hints, loop_end_hints, loop_before_hints = {}, {}, {}
+            for a, b in f.hints:
+                ml = re.match(r'@loop\s+(\d+)(\s+end|\s+before)?$', a)
+                if ml:
+                    tgt = {'end': loop_end_hints, 'before': loop_before_hints}.get((ml.group(2) or '').strip(), loop_hints)
+                    tgt[int(ml.group(1))] = tgt.get(int(ml.group(1)), '') + b
+            f.hints = [(a, b) for a, b in f.hints if not re.match(r'@loop\s+\d+(\s+end|\s+before)?$', a)]
+            body = splice_loops(body, f.loops, A.counts, loop_hints, loop_end_hints, loop_before_hints)
             body = splice_closures(body, f.closures, A.counts)
             body = splice_hints(body, f.hints, A.counts)
             qn = qual(f.newname or f.name)
